@@ -1,0 +1,35 @@
+//go:build verif
+
+package hub
+
+import (
+	"github.com/enbility/ship-go/api"
+)
+
+// Hooks for the verification harness in /verif. Compiled only with -tags verif.
+
+// VerifRegisterConnection registers a connection the way ServeHTTP / connectFoundService do
+// after they created and started it.
+func (h *Hub) VerifRegisterConnection(c api.ShipConnectionInterface) {
+	h.registerConnection(c)
+}
+
+// VerifConnectionFor returns the registered connection of a SKI (nil if none).
+func (h *Hub) VerifConnectionFor(ski string) api.ShipConnectionInterface {
+	return h.connectionForSKI(ski)
+}
+
+// VerifSetDelayRanges replaces the connection initiation delay ranges (seconds).
+func VerifSetDelayRanges(ranges [][2]int) {
+	var r []connectionInitiationDelayTimeRange
+	for _, x := range ranges {
+		r = append(r, connectionInitiationDelayTimeRange{min: x[0], max: x[1]})
+	}
+	connectionInitiationDelayTimeRanges = r
+}
+
+// VerifAttemptCounter returns the connection attempt counter of a SKI.
+func (h *Hub) VerifAttemptCounter(ski string) (int, bool, bool) {
+	c, ok := h.getCurrentConnectionAttemptCounter(ski)
+	return c, ok, h.isConnectionAttemptRunning(ski)
+}
